@@ -68,6 +68,7 @@ func flagsPart(t *testing.T, run *ev.Run) {
 		run.Note("callback_setup_steps_failed_"+st, cbLog.Failed)
 		run.Obs("callback_setup_steps_ok", int64(len(cbLog.OK)))
 		runCallbacks(run, v, ws, cs)
+		runCallbackBlocks(run, v, ws, cs)
 		if st == "all" {
 			// the same natives x flag sets table on a chain whose committee has put
 			// every non-safe native method on Policy's fee whitelist: the call
